@@ -35,6 +35,18 @@ def _cont(focus, quick, thorough, asan_frac=6, extra_env=None):
         ]
     return stages
 
+def _heap(focus, quick, thorough, asan_frac=6, extra_env=None):
+    def stages(tier):
+        n = quick if tier == "quick" else thorough
+        env = {"focus": focus, "avoid_kf": AVOID_KF_HEAP}
+        if extra_env: env.update(extra_env)
+        return [
+            {"scen": "heap", "env": env, "runs": n, "configs": ["plain"], "chunk": 25},
+            {"scen": "heap", "env": env, "runs": max(150, n // asan_frac), "configs": ["asan"], "first": 10_000_000, "chunk": 25},
+        ]
+    return stages
+AVOID_KF_HEAP = 0
+
 COMMON_ASSUME = ["sequential consistency inside one thread", "reference-model semantics as in DESIGN.md appendix A",
                  "aliasing arguments, mutation during iteration and in-place key mutation are outside the workload"]
 GEN = ("one evaluation = one seeded plan executed in a fresh process on a fixed-address stack and a seeded fixed-address arena "
@@ -126,5 +138,57 @@ PROPS = {
         "stages": _cont(16, 8000, 1_200_000),
         "rare_probes": ["str.rem_middle", "str.rem_absent", "str.grow_after_shrink", "str.shrink", "str.reserve", "str.print_to"],
         "assumptions": COMMON_ASSUME,
+    },
+    "C01": {
+        "level": "exploration",
+        "rule": "one evaluation = one seeded heap-mutation plan (Nodes, Ref, Box, Array/List/Tuple of refs, Table/Tree with refs as keys or values; "
+                "roots = stack slots, root-registered holders, thread-local entries; links, unlinks, root drops, explicit dels, copies, chains) "
+                "mirrored by a shadow graph; collections happen only through the shipped threshold path, provoked by allocation-pressure bursts "
+                "placed by the plan, under seeded allocator placement (incl. adversarial, all registry slots colliding). After every operation "
+                "every object the shadow graph reaches must be un-finalised, its block live, its canary intact. Non-trivial = at least one "
+                "collection proven (a garbage object was released) while an object was reachable only through a non-stack path; distinct = distinct trace hashes.",
+        "stages": _heap(1, 4000, 600_000),
+        "rare_probes": ["heap.tls_set", "heap.new_root", "heap.link_mapkey", "heap.link_mapval", "heap.link_seq", "heap.copy", "heap.max_chain", "heap.container_clear"],
+        "assumptions": ["never asserts that something unreachable was collected", "no interior pointers, no pointers in unscanned malloc memory, no cross-thread reachability",
+                        "objects allocated while the collector is stopped and raw objects keep nothing alive"],
+    },
+    "C06": {
+        "level": "exploration",
+        "rule": "heap-mutation plans as for C01 plus ownership links (Box -> object, Box -> Box -> object), new/new_root/new_raw, del/del_root/del_raw, "
+                "stop(gc)..start(gc) windows with allocations and deletions inside, forced and threshold collections; every plan ends with the "
+                "program-exit teardown (Cello_Exit) - plan length is seeded, so the teardown point varies. Object ledger (destructor of the probe "
+                "type) + allocator block ledger: every managed object finalised exactly once and its block released exactly once by teardown, no "
+                "block released without its destructor, nothing managed left behind. Non-trivial = a collection proven while a non-stack path "
+                "existed (as C01) - the run also counts sweep-time deletions of pending objects and stop/start windows in rare_probes; "
+                "distinct = distinct trace hashes.",
+        "stages": _heap(6, 4000, 600_000),
+        "rare_probes": ["heap.new_box", "heap.new_box_chain", "heap.del_box", "heap.del_root", "heap.del_raw", "heap.stop", "heap.new_while_stopped",
+                        "heap.del_while_stopped", "heap.del_unregistered", "heap.freed_at_teardown"],
+        "assumptions": ["roots the plan did not del_root and raw objects it did not del_raw are expected to survive", "deleting an object that a live Box still owns is outside the workload",
+                        "only the blocks of ledger objects gate; other arena blocks alive after teardown are diagnostics"],
+    },
+    "C17": {
+        "level": "exploration",
+        "rule": "heap-mutation plans as for C01/C06 with the allocator mostly in adversarial placement (every object address congruent modulo "
+                "5*11*23*53[*101[*197]], home slot = last slot, so registry probe sequences collide and wrap at every size) and LIFO address reuse; "
+                "after every operation mem(current(GC), p) is compared with the ledger for every object ever seen (live and dead), and through the "
+                "read-only accessor hook: each registered object once, root flag as allocated, count matches, no mark left set. Non-trivial = a "
+                "collection proven while a non-stack path existed; distinct = distinct trace hashes.",
+        "stages": _heap(17, 4000, 600_000),
+        "rare_probes": ["reg.grow", "reg.shrink", "reg.probe_wrapped", "heap.del", "heap.del_root", "heap.del_box"],
+        "assumptions": ["an object deleted while the collector is stopped may stay registered until a later collection"],
+    },
+    "C19": {
+        "level": "fault_enumeration",
+        "rule": "container plans (focus 19) and heap plans: every object handed out (new, new_root, new_raw, alloc, copy, elements by get and by "
+                "iteration, map values) must carry its true type, the expected allocation class and size(type) usable bytes; wrong "
+                "deallocations / in-place growth are injected on stack, static and container-embedded objects (dealloc, del, del_raw, destruct, "
+                "resize, concat, assign, push, pop, pop_at) and must raise ResourceError or ValueError and leave the object intact; the arena "
+                "ledger reports any free of a non-heap pointer and any double free. Non-trivial = >= 2 wrong deallocations injected in the run; "
+                "distinct = distinct trace hashes.",
+        "stages": lambda tier: _cont(19, 3000, 500_000)(tier) + _heap(19, 3000, 500_000)(tier),
+        "rare_probes": ["bad.dealloc-embedded", "bad.dealloc-stack-int", "bad.del_raw-stack-string", "bad.dealloc-static-type",
+                        "bad.destruct-stack-tuple", "bad.pop_at-stack-tuple", "bad.resize-stack-string"],
+        "assumptions": ["default (checked) build only"],
     },
 }
